@@ -64,6 +64,8 @@ type gen struct {
 	vals     map[ssa.Value]*Val
 	fnNamed  map[int]bool
 	hypForalls []hypForall
+	curCall    *ssa.CallCommon // the call being interpreted (for argis)
+	storedVal  *Term           // the value of the store being guarded (for storedvalue)
 	cellOf     map[token.Pos]*ssa.Alloc // named locals that live in a cell, by declaration position
 	// recursive spec functions (see evalRec)
 	recName     map[string]string
@@ -417,9 +419,7 @@ func (g *gen) store(st *State, p *Val, t types.Type, v *Val) {
 		}
 		k := g.leafKeyL(p.Addr, l)
 		g.recordWrite(k, l.Sort())
-		if !g.localRefs[p.L[0].id] {
-			g.checkStoreGuards(st, k)
-		}
+		g.checkStoreGuards(st, k, g.localRefs[p.L[0].id], v.L[i])
 		hv := st.heap.Get(k, l.Sort(), SInt)
 		var idx *Term
 		if p.Addr.Elem {
